@@ -1,0 +1,49 @@
+//go:build verif
+
+// Contracts for the deductive verifier in /verif (govc). Comment-only.
+
+package bulking
+
+//@ ghost nRun int
+//@ ghost lastRunCtrl ledgercontroller.Controller
+//@ ghost lastRunHasError bool
+
+//@ func (opts BulkingOptions) Validate() (err error)
+//@   property C32
+//@   ensures (err != nil) == (opts.Atomic && opts.Parallel)
+
+// run submits one closure per element to a worker pool (goroutines, select, channels): outside the subset.
+// Assumed: it performs no BeginTX / Commit / Rollback on any controller, runs the elements on the controller it is given,
+// and returns true iff some element result carries an error.
+//@ assumed func (b *Bulker) run(ctx context.Context, ctrl ledgercontroller.Controller, schemaVersion string, bulk Bulk, result chan BulkElementResult, continueOnFailure bool, parallel bool) (hasError bool)
+//@   modifies nRun, lastRunCtrl, lastRunHasError, ctrlWrites, lastWriteCtrl, lastIK, lastSchemaVersion, lastDryRun
+//@   ensures nRun == old(nRun) + 1 && lastRunCtrl == ctrl && lastRunHasError == hasError
+
+//@ func (b *Bulker) Run(ctx context.Context, bulk Bulk, result chan BulkElementResult, bulkOptions BulkingOptions) (err error)
+//@   property C32
+//@   modifies nRun, lastRunCtrl, lastRunHasError, ctrlWrites, lastWriteCtrl, lastIK, lastSchemaVersion, lastDryRun, nCtrlBegin, lastTxCtrl, nCtrlCommit, nCtrlRollback
+//@   ensures bulkOptions.Atomic && bulkOptions.Parallel ==> err != nil && nRun == old(nRun) && nCtrlBegin == old(nCtrlBegin)
+//@   ensures nRun <= old(nRun) + 1
+//@   ensures !bulkOptions.Atomic ==> nCtrlBegin == old(nCtrlBegin) && nCtrlCommit == old(nCtrlCommit) && nCtrlRollback == old(nCtrlRollback)
+//@   ensures !bulkOptions.Atomic && nRun == old(nRun) + 1 ==> lastRunCtrl == b.ctrl && err == nil
+//@   ensures bulkOptions.Atomic && nRun == old(nRun) + 1 ==> nCtrlBegin == old(nCtrlBegin) + 1 && lastRunCtrl == lastTxCtrl
+//@   ensures bulkOptions.Atomic && nRun == old(nRun) + 1 && lastRunHasError ==> nCtrlRollback == old(nCtrlRollback) + 1 && nCtrlCommit == old(nCtrlCommit) && err == nil
+//@   ensures bulkOptions.Atomic && nRun == old(nRun) + 1 && !lastRunHasError ==> nCtrlRollback == old(nCtrlRollback) && (err == nil) == (nCtrlCommit == old(nCtrlCommit) + 1)
+//@   ensures bulkOptions.Atomic && nRun == old(nRun) ==> nCtrlCommit == old(nCtrlCommit) && nCtrlRollback == old(nCtrlRollback)
+
+//@ func (b *Bulker) processElement(ctx context.Context, ctrl ledgercontroller.Controller, schemaVersion string, data BulkElement) (ret any, logID uint64, err error)
+//@   property C32 C38
+//@   requires data.Action == "CREATE_TRANSACTION" ==> is(data.Data, TransactionRequest)
+//@   requires data.Action == "ADD_METADATA" ==> is(data.Data, AddMetadataRequest)
+//@   requires data.Action == "REVERT_TRANSACTION" ==> is(data.Data, RevertTransactionRequest)
+//@   requires data.Action == "DELETE_METADATA" ==> is(data.Data, DeleteMetadataRequest)
+//@   requires data.Action == "CREATE_TRANSACTION" || data.Action == "ADD_METADATA" || data.Action == "REVERT_TRANSACTION" || data.Action == "DELETE_METADATA"
+//@   modifies ctrlWrites, lastWriteCtrl, lastIK, lastSchemaVersion, lastDryRun
+//@   ensures ctrlWrites <= old(ctrlWrites) + 1
+//@   ensures err == nil ==> ctrlWrites == old(ctrlWrites) + 1
+//@   ensures ctrlWrites == old(ctrlWrites) + 1 ==> lastWriteCtrl == ctrl && lastIK == data.IdempotencyKey && lastSchemaVersion == schemaVersion && !lastDryRun
+
+//@ func (req TransactionRequest) ToCore() (r *ledgercontroller.CreateTransaction, err error)
+//@   property C25 C28 C32 C38
+//@   ensures (err != nil) == !wfPostings(req.Postings)
+//@   ensures err == nil ==> r != nil && r.Runtime == req.Runtime && r.AccountMetadata == req.AccountMetadata && r.Timestamp == req.Timestamp && r.Reference == req.Reference
